@@ -164,6 +164,32 @@ class MemStream:
         self.close()
 
 
+class Preempt:
+    """adversarial scheduler at environment calls: before the k-th call into the modelled environment (file test / open / lock acquisition) made since
+    arm(), another process's complete action runs (once).  Whether that action can run is up to the lock model: a process that finds the lock busy waits."""
+    at, n, fn, busy = -1, 0, None, False
+
+    @classmethod
+    def arm(cls, at, fn):
+        cls.at, cls.n, cls.fn, cls.busy = at, 0, fn, False
+
+    @classmethod
+    def off(cls):
+        cls.at, cls.fn = -1, None
+
+    @classmethod
+    def call(cls):
+        if cls.fn is None or cls.busy:
+            return
+        cls.n += 1
+        if cls.n == cls.at:
+            f, cls.fn, cls.busy = cls.fn, None, True
+            try:
+                f()
+            finally:
+                cls.busy = False
+
+
 class FakePath:
     fs: FS = None
     lock_monitor = None     # callable(path, mode) invoked on every open, for C04's "append only under the write lock"
@@ -187,9 +213,11 @@ class FakePath:
         return hash(self.p)
 
     def is_file(self):
+        Preempt.call()
         return self.p in self.fs.files
 
     def exists(self):
+        Preempt.call()
         return self.p in self.fs.files
 
     def as_posix(self):
@@ -199,6 +227,7 @@ class FakePath:
         return self
 
     def open(self, mode="r"):
+        Preempt.call()
         if FakePath.lock_monitor is not None:
             FakePath.lock_monitor(self.p, mode)
         self.fs.opens.append((self.p, mode))
@@ -228,6 +257,7 @@ class RWLock:
         self.mine = {"r": 0, "w": 0}
 
     def acquire_read_lock(self, timeout=None):
+        Preempt.call()
         if self.st["w"]:
             return False
         self.st["r"] += 1
@@ -235,6 +265,7 @@ class RWLock:
         return True
 
     def acquire_write_lock(self, timeout=None):
+        Preempt.call()
         if self.st["w"] or self.st["r"]:
             return False
         self.st["w"] = 1
@@ -403,6 +434,7 @@ def install_storage_models():
 
 
 def fresh_fs():
+    Preempt.off()
     fs = FS()
     FakePath.fs = fs
     FakePath.lock_monitor = None
